@@ -35,13 +35,13 @@ MANIFEST = dict(
           "header_and_reset_fields over the field tables instrumented from the live objects. PIECES: heuristics_total, heuristicsOld_error_iff, "
           "heuristics_agree_old; charref_total, charref_spec, charrefSpec_identity, cp1252_table, handleCharrefOld_errors, charref_agree_old, "
           "charref_envelope_live/_v4130/_spec (the concrete conversion is the envelope model at CPython's int/chr/codecs); "
-          "dammit_some_of_fallback, dammit_envelope_refines, dammitE_some_of_fallback, prepare_outcome; constructor_outcome, feed_outcome; witnesses "
+          "dammit_some_of_fallback, dammit_envelope_refines, dammitE_some_of_fallback, prepare_outcome; original_encoding_is_codec (repaired _to_unicode), withEmptyGuard_within, live_original_encoding_is_codec; constructor_outcome, feed_outcome; witnesses "
           "on the unrepaired mirrors; live_code_returns_on_witnesses. Tie: generated inputs of the quantifier's classes through the real "
           "constructor (outcome class, locator warning, every character reference) against the model; every primitive recorded on every input "
           "(classes raised must be recorded kinds); injection of every class at every primitive on several documents against `predict`; "
           "UnicodeDammit with individual lookups/decodings/the generator/the log call made to raise against `dammitE`; an instrumented "
-          "UnicodeDammit against the model of its passes; fault injection through a harness TreeBuilder; histories across documents and retries (unclosed void elements first, stray end tags between text after; fresh/shared builder), each in its own interpreter, tree node by node against the same markup parsed alone in a fresh interpreter; "
-          "a render stream (trees holding <meta> charset declarations rendered for every output-encoding name shape: the tree's own original_encoding incl. every digit-named codec alias given as from_encoding or declared by the page, ordinary and Python-specific codecs, names special in regex templates; each declaration keeps its prefix and gets the name literally, stated over the live pattern's matches); direct oracle (no other exception; tree well linked, renderable incl. in its own original encoding, searchable, copyable; ParserRejectedMarkup only with a cause)."),
+          "UnicodeDammit against the model of its passes; fault injection through a harness TreeBuilder (k rejected strategies, acceptance, and MORE strategies offered after the accepted one: the loop stops at the first acceptance); histories across documents and retries (unclosed void elements first, stray end tags between text after; fresh/shared builder), each in its own interpreter, tree node by node against the same markup parsed alone in a fresh interpreter; "
+          "a render stream (trees holding <meta> charset declarations rendered for every output-encoding name shape: the tree's own original_encoding incl. every digit-named codec alias given as from_encoding or declared by the page, ordinary and Python-specific codecs, names special in regex templates; each declaration keeps its prefix and gets the name literally, stated over the live pattern's matches); deep-nesting families around and above the recursion limit with whitespace-preserving elements and string containers; documents empty after the byte-order mark x names that are no text codec; direct oracle (original_encoding names a text codec; no other exception; tree well linked, renderable incl. in its own original encoding, searchable, copyable; ParserRejectedMarkup only with a cause)."),
     design="7/C06",
     note=("PARTIAL. Trusted residue, named: `Prims.Within Gen.C06.recorded` - CPython's codecs.lookup raises only LookupError/ValueError/"
           "UnicodeEncodeError; str(bytes,codec,errors) only LookupError/ValueError/UnicodeEncodeError/UnicodeDecodeError/UnicodeError; html.parser's "
@@ -366,6 +366,15 @@ def run_constructor(markup, kwargs, post=True):
         if soup.markup is not None or soup.builder.soup is not None:
             rec["half_built"] = "markup/builder.soup not cleared after a successful parse"
         rec["orig"] = soup.original_encoding
+        rec["orig_not_codec"] = None
+        if soup.original_encoding is not None:
+            try:
+                "".encode(soup.original_encoding)
+                str(b"x", soup.original_encoding, "replace")
+            except LookupError as e:
+                rec["orig_not_codec"] = f"{type(e).__name__}: {str(e)[:80]}"
+            except Exception:  # noqa (the codec exists and refuses these bytes: fine)
+                pass
         rec["repl"] = soup.contains_replacement_characters
         if post and depth <= 6000:
             rec["post"] = post_ops(soup)
@@ -606,6 +615,21 @@ def gen_structural(ctx):
         out.append(("deep-nesting", "<p>t" * n, {}, n <= 5000))
         out.append(("deep-nesting", "<a>x" * (n // 2) + "</a>y" * (n // 2), {}, n <= 5000))
         out.append(("deep-nesting", "</a>" * n, {}, True))
+    # nesting around and above the interpreter's recursion limit involving whitespace-preserving elements and string containers
+    # (pre, textarea; template, rt, rp): nested in each other, as the one ancestor of a deep nest of any tags, at its bottom; left open or closed
+    for n in ((600, 1500) if not ctx.thorough else (250, 600, 1100, 3000)):
+        for w in ("pre", "textarea"):
+            out.append(("deep-ws", ("<%s>x" % w) * n, {}, True))
+            out.append(("deep-ws", ("<%s>\n " % w) * n + ("</%s> " % w) * n, {}, True))
+        out.append(("deep-ws", "<pre><textarea>" * (n // 2) + "t", {}, True))
+        for w in ("pre", "textarea", "template", "rt", "rp"):
+            out.append(("deep-ws", "<%s>" % w + "<b>" * n + "x", {}, True))
+            out.append(("deep-ws", "<%s>" % w + "<b><i>" * (n // 2) + " x " + "</i></b>" * (n // 2) + "</%s>t" % w, {}, True))
+            out.append(("deep-ws", "<b>" * n + "<%s> x </%s>" % (w, w), {}, True))
+            out.append(("deep-ws", ("<%s>" % w) * n + "x", {}, True))
+        out.append(("deep-ws", "<ruby>" + "<rt><rp>" * (n // 2) + "x", {}, True))
+        out.append(("deep-ws", "<pre>" + "<i>t" * n, {}, True))
+        out.append(("deep-ws", ("<pre>x" * n).encode(), {}, True))
     for n in (100, 1000, 70000):
         out.append(("long", "<" + "a" * n + ">", {}, True))
         out.append(("long", "<a " + "b" * n + "=1>", {}, True))
@@ -738,6 +762,16 @@ def gen_bytes(ctx):
         out.append(("bom", b, {"from_encoding": "utf-8"}, True))
         out.append(("bom", b, {"exclude_encodings": ["utf-8", "windows-1252"]}, True))
         out.append(("bom", b + b"<p>\xe9</p>", {"exclude_encodings": ["utf-16le", "utf-16be", "utf-8", "utf-32le", "utf-32be"]}, True))
+    # documents that are EMPTY once the byte-order mark is stripped x encoding names that are no text codec here (unknown, Windows-only,
+    # bytes-to-bytes / str-to-str codecs, bogus): original_encoding must still name the encoding the document was read as
+    not_text = ["nosuch", "mbcs", "oem", "base64", "rot13", "hex", "zlib", "bz2", "uu", "quopri", "no-such", "utf-9", "x" * 40, "\u00e9",
+                "string-escape", "unicode_internal", "8", "undefined"]
+    for bom in [b"\xef\xbb\xbf", b"\xff\xfe", b"\xfe\xff", b"\xff\xfe\x00\x00", b"\x00\x00\xfe\xff", b""]:
+        for name in not_text + ["utf-8", "latin-1", "idna", "utf-16"]:
+            out.append(("empty-after-bom", bom, {"from_encoding": name}, True))
+            out.append(("empty-after-bom", bom, {"from_encoding": name, "exclude_encodings": ["utf-8", "windows-1252"]}, True))
+        for name in not_text[:6]:
+            out.append(("empty-after-bom", bom + b"x", {"from_encoding": name}, True))        # contrast: one character after the mark
     for g in garbage:
         out.append(("garbage", g, {}, True))
         for _ in range(3):
@@ -899,7 +933,7 @@ def stream_dammit(ctx, drv, byte_cases):
                     row = []
                     for errors in ("strict", "replace"):
                         try:
-                            u = str(d.markup, c, errors)
+                            u = d._to_unicode(d.markup, c, errors)      # the live one-line wrapper around str(data, codec, errors)
                             row.append("z" if u == "" else "t")
                         except Exception:  # noqa
                             row.append("n")
@@ -1033,6 +1067,49 @@ def run_fault(plan):
     return "tree", b.attempts, dump(soup) | {"link": prob}, None
 
 
+def fault_expect(plan):
+    """the property, directly: the first strategy that is not rejected decides, nothing after it is tried"""
+    for i, st in enumerate(plan):
+        a = st[4][0]
+        if a == "accept":
+            return "tree", i
+        if a == "raise":
+            return "raise", i
+    return "prm", len(plan) - 1
+
+
+def check_fault(plan, outcome, attempts, d, msg):
+    """-> None or (what, expected, observed)"""
+    want, idx = fault_expect(plan)
+    if want == "raise":
+        if outcome != "other:KeyError" or attempts != idx + 1:
+            return ("a foreign exception raised by the builder part-way did not reach the caller (or strategies after it were tried)",
+                    f"KeyError after {idx + 1} attempts", f"{outcome} after {attempts}")
+        return None
+    if want == "prm":
+        if outcome != "prm" or attempts != len(plan):
+            return ("every strategy rejected but the constructor did not raise ParserRejectedMarkup after trying each once",
+                    f"ParserRejectedMarkup after {len(plan)} attempts", f"{outcome} after {attempts}")
+        if plan and all(st[4][0] == "counted" for st in plan) and msg.count("injected rejection") != len(plan):
+            return ("the final ParserRejectedMarkup does not list every rejection", len(plan), msg[:300])
+        return None
+    if outcome != "tree":
+        return ("k rejections followed by acceptance did not yield a tree", "tree", f"{outcome}: {msg}")
+    if attempts != idx + 1:
+        return (f"the loop did not stop at the first accepted strategy: {attempts} strategies were fed, the accepted one is #{idx + 1}",
+                f"{idx + 1} attempts", f"{attempts} attempts")
+    clean_outcome, _, clean, _ = run_fault([plan[idx]])
+    if d["link"]:
+        return ("tree after rejected attempts is not well linked: " + d["link"], None, None)
+    if clean_outcome != "tree" or d != clean:
+        diff = [k2 for k2 in d["state"] if clean and d["state"][k2] != clean["state"].get(k2)] if clean else []
+        return ("the final object is not the clean parse of the FIRST accepted strategy: something of another attempt (rejected before it, or "
+                "offered after it) is in it, or it is half-built",
+                {"state_fields_differing": diff, "nodes_equal": bool(clean) and d["nodes"] == clean["nodes"]},
+                {k2: d["state"][k2] for k2 in diff[:6]} | {"nodes": [n[1] for n in d["nodes"][:8]]})
+    return None
+
+
 def stream_fault(ctx, drv):
     r = ctx.rng("fault")
     lines, impl, cases = [], [], []
@@ -1060,6 +1137,23 @@ def stream_fault(ctx, drv):
     for k in range(0, 3):
         rej = [("r", None, None, False, ("counted", POISONS[0], 3)) for _ in range(k)]
         plans.append((rej + [("x", None, None, False, ("raise", KeyError)), ("<p>never</p>", None, None, False, ("accept",))], "foreign", k, 0))
+    # the builder offers MORE strategies after the one that is accepted (as the lxml builders do: one per plausible encoding): the loop stops
+    # at the first acceptance, they are never tried
+    nat = POISONS[0] + "<![x]" + POISONS[0]
+    tails = [[("<p>later accepted</p>", "koi8-r", "dl", True, ("accept",))],
+             [("later-rejected", "cp1251", "dl", True, ("counted", POISONS[0], 4))],
+             [("later-rejected", None, None, False, ("natural", nat))],
+             [("later-crash", None, None, False, ("raise", KeyError))],
+             [("later-rejected", None, None, False, ("counted", POISONS[2], 2)), ("<i>later accepted</i>", None, None, False, ("accept",))]]
+    for k in range(0, 3):
+        for j in (0, 3):
+            for pi in (0, 2, 3):
+                for fi in range(len(FINALS)):
+                    if not ctx.thorough and (pi + fi + j + k) % 2:
+                        continue
+                    rej = [("rejected-%d" % i, ["koi8-r", "cp1251", "shift_jis"][i], "decl-r%d" % i, bool(i % 2), ("counted", POISONS[pi], j)) for i in range(k)]
+                    for tail in tails:
+                        plans.append((rej + [(FINALS[fi], "iso-8859-5", "decl-final", False, ("accept",))] + tail, "more-after-accept", k, j))
     for plan, kind, k, j in plans:
         outcome, attempts, d, msg = run_fault(plan)
         outs = []
@@ -1071,33 +1165,12 @@ def stream_fault(ctx, drv):
         case = {"op": "fault", "kind": kind, "k": k, "j": j,
                 "plan": [[st[0], st[1], st[2], st[3], [st[4][0]] + [x if isinstance(x, (str, int)) else x.__name__ for x in st[4][1:]]] for st in plan]}
         cases.append(case)
-        ctx.case(("F", kind, k, j, repr(plan)[:200]) if k > 0 else None,
+        ctx.case(("F", kind, k, j, repr(plan)[:300]) if (k > 0 or kind == "more-after-accept") else None,
                  sample={"fault": kind, "k": k, "j": j, "outcome": outcome} if k == 2 and j == 3 and len(ctx.samples) < 10 else None)
         ctx.count(f"fault:{kind}:k={k}:{outcome}")
-        accepting = [st for st in plan if st[4][0] == "accept"]
-        foreign = any(st[4][0] == "raise" for st in plan)
-        if foreign:
-            if outcome != "other:KeyError":
-                ctx.violation("a foreign exception raised by the builder part-way did not reach the caller", case=case, expected="KeyError", observed=outcome, stream="fault")
-            continue
-        if not accepting:
-            if outcome != "prm" or attempts != len(plan):
-                ctx.violation("every strategy rejected but the constructor did not raise ParserRejectedMarkup after trying each once",
-                              case=case, expected=f"ParserRejectedMarkup after {len(plan)} attempts", observed=f"{outcome} after {attempts}", stream="fault")
-            elif plan and msg.count("injected rejection") != len(plan):
-                ctx.violation("the final ParserRejectedMarkup does not list every rejection", case=case, expected=len(plan), observed=msg[:300], stream="fault")
-            continue
-        if outcome != "tree":
-            ctx.violation("k rejections followed by acceptance did not yield a tree", case=case, expected="tree", observed=f"{outcome}: {msg}", stream="fault")
-            continue
-        clean_outcome, _, clean, _ = run_fault([accepting[0]])
-        if d["link"]:
-            ctx.violation("tree after rejected attempts is not well linked: " + d["link"], case=case, stream="fault")
-        if clean_outcome != "tree" or d != clean:
-            diff = [k2 for k2 in d["state"] if clean and d["state"][k2] != clean["state"].get(k2)] if clean else []
-            ctx.violation("something of a rejected attempt survives in the final object (differs from a clean parse of the accepted strategy)",
-                          case=case, expected={"state_fields_differing": diff, "nodes_equal": bool(clean) and d["nodes"] == clean["nodes"]},
-                          observed={k2: d["state"][k2] for k2 in diff[:6]}, stream="fault")
+        problem = check_fault(plan, outcome, attempts, d, msg)
+        if problem and not capped(ctx, "fault", problem[0][:50]):
+            ctx.violation(problem[0], case=case, expected=problem[1], observed=problem[2], stream="fault")
     rep = drv.ask(lines)
     for l, a, b, c in zip(lines, impl, rep, cases):
         if a != b:
@@ -1328,7 +1401,7 @@ def stream_dammit_raising(ctx, drv, byte_cases):
                     row.append("!" + E.proto_name(plan_decode[(c, errors)]))
                 else:
                     try:
-                        u = str(d0.markup, c, errors)
+                        u = real_to_unicode(d0, d0.markup, c, errors)
                         row.append("z" if u == "" else "t")
                     except Exception as exn:  # noqa
                         row.append("!" + E.proto_name(type(exn)))
@@ -1738,6 +1811,11 @@ def aggregate(ctx, drv, cases, results):
         if rec.get("has_text") and rec["tok"] == "ok" and rec["outcome"] == "prm" and not capped(ctx, stream, "prm-without-cause"):
             ctx.violation(f"BeautifulSoup({describe(markup)}, ...) raised ParserRejectedMarkup although UnicodeDammit produced text and the tokenizer "
                           "alone accepts it: " + str(rec["exc"]), case=case, expected="a tree", observed="ParserRejectedMarkup", stream=stream)
+        if rec.get("orig_not_codec") and not capped(ctx, stream, "orig-not-codec"):
+            ctx.violation(f"BeautifulSoup({describe(markup)}, 'html.parser'{''.join(', %s=%r' % kv for kv in kwargs.items())[:120]}) returns a tree "
+                          f"whose original_encoding {rec['orig']!r} is not a text codec ({rec['orig_not_codec']}): the document cannot have been read as that",
+                          case=case, expected="original_encoding names the codec the document was decoded with", observed=rec["orig"], stream=stream,
+                          kf=classify_known(markup, kwargs, rec))
         if rec["link"] and not capped(ctx, stream, "link"):
             ctx.violation("the constructed tree is not well linked: " + rec["link"], case=case, stream=stream)
         if rec["post"] and not capped(ctx, stream, "post:" + rec["post"][:30]):
@@ -1927,22 +2005,14 @@ def replay(path):
             a = tuple(act) if act[0] != "raise" else ("raise", excs.get(act[1], KeyError))
             plan.append((m, oe, de, cr, a))
         outcome, attempts, d, msg = run_fault(plan)
-        print(f"plan of {len(plan)} strategies -> {outcome} after {attempts} attempts", msg or "")
-        accepting = [st for st in plan if st[4][0] == "accept"]
-        if any(st[4][0] == "raise" for st in plan):
-            return 0 if outcome == "other:KeyError" else 1
-        if not accepting:
-            return 0 if outcome == "prm" and attempts == len(plan) else 1
-        if outcome != "tree":
+        print(f"plan of {len(plan)} strategies {[st[4][0] for st in plan]} -> {outcome} after {attempts} attempts", msg or "")
+        problem = check_fault(plan, outcome, attempts, d, msg)
+        if problem:
+            print("PROBLEM:", problem[0])
+            print("  expected:", problem[1])
+            print("  observed:", str(problem[2])[:600])
             return 1
-        _, _, clean, _ = run_fault([accepting[0]])
-        if d != clean:
-            diff = [k for k in d["state"] if d["state"][k] != clean["state"].get(k)]
-            print("final object differs from a clean parse of the accepted strategy; state fields:", diff, "nodes equal:", d["nodes"] == clean["nodes"])
-            for k in diff[:8]:
-                print("  ", k, ":", d["state"][k], "  clean:", clean["state"].get(k))
-            return 1
-        print("final object identical to a clean parse of the accepted strategy")
+        print("the first strategy that is not rejected decided, nothing after it was tried, the object is its clean parse")
         return 0
     if c.get("op") == "dammit-raising":
         print("UnicodeDammit on", describe(dec_markup(c["markup"])), dec_kwargs(c.get("kwargs", {})))
